@@ -10,6 +10,13 @@ use tls_matrix::*;
 fn main() {
     let args: Vec<String> = std::env::args().collect();
     vcore::runner::install_silent_panic_hook();
+    if args.len() >= 3 && args[1] == "C14" {
+        // `chk-rustls C14 child`: the live first-octets check with the rustls-only feature set
+        let rt = tokio::runtime::Builder::new_multi_thread().worker_threads(2).enable_all().build().expect("tokio runtime");
+        let rs: Vec<serde_json::Value> = first_octets_on_the_wire("rustls", &rt).into_iter().map(|(id, v)| serde_json::json!({"id": id, "verdict": match v { Ok(()) => serde_json::Value::Null, Err((sig, msg)) => serde_json::json!({"sig": sig, "msg": msg}) }})).collect();
+        println!("RESULTS {}", serde_json::Value::Array(rs));
+        return;
+    }
     if args.len() < 3 || args[1] != "C12" {
         eprintln!("usage: chk-rustls C12 quick|thorough|replay <cell>");
         std::process::exit(2);
